@@ -247,6 +247,7 @@ type lifeCfg struct {
 	amRelay    bool
 	useRelay   bool
 	failStart  bool // device whose Activate fails
+	queryBuf   int  // handshakes.query_buffer (0: default)
 }
 
 type lifeNode struct {
@@ -293,7 +294,11 @@ func lifeNewNode(ca *lifeCA, name string, vpn netip.Addr, cfg lifeCfg, lhVpn net
 		sb.WriteString("  conntrack:\n    routine_cache_timeout: 200ms\n")
 	}
 	fmt.Fprintf(&sb, "listen:\n  host: %s\n  port: %d\n", udpAddr.Addr(), udpAddr.Port())
-	sb.WriteString("logging:\n  level: error\nhandshakes:\n  try_interval: 100ms\n  retries: 5\ntimers:\n  pending_deletion_interval: 2\n  connection_alive_interval: 2\n")
+	sb.WriteString("logging:\n  level: error\nhandshakes:\n  try_interval: 100ms\n  retries: 5\n")
+	if cfg.queryBuf > 0 {
+		fmt.Fprintf(&sb, "  query_buffer: %d\n", cfg.queryBuf)
+	}
+	sb.WriteString("timers:\n  pending_deletion_interval: 2\n  connection_alive_interval: 2\n")
 	if cfg.routines > 1 {
 		fmt.Fprintf(&sb, "routines: %d\n", cfg.routines)
 	}
@@ -610,6 +615,41 @@ func (sc *lifeScenario) finish() {
 	sc.emitCensus("end")
 }
 
+// rebindIdle: a node with a small lighthouse query buffer holds k tunnels, its sockets are rebound
+// (Control.RebindUDPServer marks every tunnel as "has not sent since the rebind"), and it is stopped. Stop cancels the
+// context - the lighthouse query worker returns - and only then sends a CloseTunnel on every tunnel: that phase must
+// not wait for the worker. Variants: no rebind; traffic on every tunnel after the rebind; the node is a lighthouse.
+func lifeRebindIdle(sc *lifeScenario, ca *lifeCA, buf, k int, rebind, trafficAfter, amLH bool) {
+	hub := sc.add(ca, "hub", "10.128.0.1", lifeCfg{queryBuf: buf, amLH: amLH}, nil)
+	var peers []*lifeNode
+	for i := 0; i < k; i++ {
+		p := sc.add(ca, fmt.Sprintf("p%d", i), fmt.Sprintf("10.128.0.%d", 10+i), lifeCfg{}, nil)
+		hub.ctl.InjectLightHouseAddr(p.vpn, p.udp)
+		p.ctl.InjectLightHouseAddr(hub.vpn, hub.udp)
+		peers = append(peers, p)
+	}
+	sc.r = lifeNewRouter(append([]*lifeNode{hub}, peers...)...)
+	sc.start(hub)
+	up := 0
+	for _, p := range peers {
+		sc.start(p)
+		if lifeWaitTunnel(hub, p, 5*time.Second) {
+			up++
+		}
+	}
+	if rebind {
+		hub.ctl.RebindUDPServer()
+	}
+	if trafficAfter {
+		for _, p := range peers {
+			lifeWaitTunnel(hub, p, 2*time.Second)
+		}
+	}
+	sc.emitCensus(fmt.Sprintf("%d/%d tunnels up, rebind=%v, traffic after=%v", up, k, rebind, trafficAfter))
+	sc.stop(hub, fmt.Sprintf("query_buffer=%d, %d idle tunnels, rebind=%v, traffic after=%v, lighthouse=%v", buf, up, rebind, trafficAfter, amLH))
+	sc.finish()
+}
+
 func runLifecycleNet(c *hx.Ctx) {
 	ca := func() *lifeCA {
 		crt, _, key, pemB := cert_test.NewTestCaCert(cert.Version1, cert.Curve_CURVE25519, time.Now().Add(-time.Hour), time.Now().Add(24*365*time.Hour), nil, nil, []string{})
@@ -757,7 +797,14 @@ func runLifecycleNet(c *hx.Ctx) {
 		sc.stop(a, "after failed start")
 		sc.finish()
 
-		// 9. random configurations
+		// 9. rebind, idle tunnels, small lighthouse query buffer, stop - and the controls
+		buf := 1 + c.Intn(2)
+		lifeRebindIdle(newSc("rebind-idle-stop"), ca, buf, buf+1+c.Intn(3), true, false, false)
+		lifeRebindIdle(newSc("rebind-idle-stop-control-norebind"), ca, 1, 2, false, false, false)
+		lifeRebindIdle(newSc("rebind-idle-stop-control-traffic"), ca, 1, 2, true, true, false)
+		lifeRebindIdle(newSc("rebind-idle-stop-control-lighthouse"), ca, 1, 2, true, false, true)
+
+		// 10. random configurations
 		extra := 1
 		if c.Tier == "thorough" {
 			extra = 6
